@@ -259,6 +259,9 @@ func (ex *Exec) callSSA(caller *frame, fn *ssa.Function, args []Value, env []Val
 	for i, l := range fn.Locals {
 		fr.locals[i] = ex.zero(deref(l.Type()))
 		fr.env[l] = &fr.locals[i]
+		if ex.fp != nil {
+			ex.fp.markFresh(&fr.locals[i])
+		}
 	}
 	for i, p := range fn.Params {
 		fr.env[p] = args[i]
@@ -478,6 +481,9 @@ func (fr *frame) visitInstr(instr ssa.Instruction) continuation {
 			addr = fr.env[instr].(*Value)
 		}
 		*addr = ex.zero(deref(instr.Type()))
+		if ex.fp != nil {
+			ex.fp.markFresh(addr)
+		}
 
 	case *ssa.MakeSlice:
 		n := ex.concretize(fr.get(instr.Len).(*smt.Term), "make len")
@@ -663,10 +669,18 @@ func (fr *frame) load(addr Value) Value {
 			ex.goPanic("runtime error: invalid memory address or nil pointer dereference")
 		}
 		ex.rt.noteAccess(fr, a, false)
+		if ex.fp != nil {
+			ex.fp.note(a, false)
+		}
 		return copyVal(*a)
 	case ElemPtr:
 		c := ex.ctx
 		n := len(a.S)
+		if ex.fp != nil {
+			for k := range a.S {
+				ex.fp.note(&a.S[k], false)
+			}
+		}
 		res := followPath(a.S[n-1], a.Path)
 		for k := n - 2; k >= 0; k-- {
 			var ok bool
@@ -688,10 +702,16 @@ func (fr *frame) store(addr Value, v Value) {
 			ex.goPanic("runtime error: invalid memory address or nil pointer dereference")
 		}
 		ex.rt.noteAccess(fr, a, true)
+		if ex.fp != nil {
+			ex.fp.note(a, true)
+		}
 		storeInto(a, v)
 	case ElemPtr:
 		c := ex.ctx
 		for k := range a.S {
+			if ex.fp != nil {
+				ex.fp.note(&a.S[k], true)
+			}
 			cell := &a.S[k]
 			for _, f := range a.Path {
 				cell = &(*cell).(Struct)[f]
